@@ -744,9 +744,11 @@ func ruleC12_2(c *Ctx) {
 				req = call
 			}
 		}
-		for _, call := range callsIn(f, "(*encoding/json.Decoder).Decode") {
-			if c.condAt(bo, true, call.Block()) {
-				dec = call
+		decT := ""
+		for _, sd := range c.strictDecodes(f) {
+			if c.condAt(bo, true, sd.site.Block()) {
+				dec = sd.site
+				decT = sd.targetT
 			}
 		}
 		okReq := false
@@ -769,11 +771,7 @@ func ruleC12_2(c *Ctx) {
 		c.check(okReq, R, fn, "required fields of "+wantT+" are checked for _type "+marker, f.Pos(), "checkRequiredJSONFields(payload, reflect.TypeOf("+wantT+"{})) with failing error", "the required-field check for marker "+marker+" is missing, uses another type, or its error is ignored")
 		okDec := false
 		if dec != nil {
-			t := typeStr(dec.Common().Args[1].Type())
-			if mi, ok := dec.Common().Args[1].(*ssa.MakeInterface); ok {
-				t = typeStr(mi.X.Type())
-			}
-			okDec = t == "*"+wantT && (req == nil || instrDominates(req, dec))
+			okDec = decT == "*"+wantT && (req == nil || instrDominates(req, dec))
 		}
 		c.check(okDec, R, fn, "_type "+marker+" decodes into "+wantT+" after the required-field check", f.Pos(), "Decode(&"+wantT+")", "marker "+marker+" does not decode into "+wantT)
 	}
